@@ -93,6 +93,15 @@ type Pool struct {
 	Requests int
 }
 
+// limitFor: the CPU budget of one request.  gosk needs about 2 ms of CPU time
+// per statement (measured on the pinned commit: 12 500 lines of `MOV AX,1`,
+// 125 KB, take 30 s), so a fixed budget would call a large input a hang; the
+// budget grows by 1 ms per input byte, which is 4-5 times what the slowest
+// linear family needs and still ends anything that does not terminate.
+func (p *Pool) limitFor(srcLen int) time.Duration {
+	return p.cpuLimit + time.Duration(srcLen)*time.Millisecond
+}
+
 func NewPool(bin, root string, n int) *Pool {
 	return &Pool{bin: bin, root: root, n: n, cpuLimit: 60 * time.Second}
 }
@@ -260,7 +269,7 @@ func (p *Pool) do(w *worker, req Req) Res {
 			}
 			return res
 		case <-tick.C:
-			if !timedOut && procCPU(w.cmd.Process.Pid)-cpu0 > p.cpuLimit {
+			if !timedOut && procCPU(w.cmd.Process.Pid)-cpu0 > p.limitFor(len(req.Src)) {
 				timedOut = true
 				w.cmd.Process.Signal(syscall.SIGKILL)
 			}
